@@ -396,6 +396,58 @@ def lookup(ctx):
     for x in backs:
         okb = okb and x[0] == 'min' and tgt in (x[1], x[2]) and any(y[0] == 'pre' and y[1][-1] == ('f', 'speed_target') for y in walk(x[2] if x[1] == tgt else x[1]))
     ctx.check(okb, R, fid + '|target step', 'each point inside the look-ahead can only lower the target (running minimum of speed_target)', 'on the back edge: %s' % [show(x, an.names)[:120] for x in backs][:2], w)
+    # which points the look-ahead visits: it starts at the current point, moves one point nearer the train's destination per
+    # iteration, reads the point it moves to, and goes on exactly while that point lies within offset + speed * ramp-up time
+    L = None
+    for x in backs:
+        y = x[2] if x[1] == tgt else x[1]
+        if y[0] == 'pre' and y[1][:2] == P('points') and y[1][2][0] == 'idx' and y[1][2][1][0] == 'sub' and y[1][2][1][2] == ONE and y[1][2][1][1][0] == 'loopvar' and y[1][2][1][1][1] == H:
+            L = y[1][2][1][1]
+    if L is None:
+        ctx.unproved(R, fid + '|look-ahead index', 'the point read on the back edge is not points[idx - 1] of a loop-carried idx', w); return
+    l_ent = an.load(L[2], an.loop_entry[H])
+    l_back = [an.load(L[2], s_) for s_ in an.loop_back.get(H, [])]
+    ctx.check(l_ent == IDX and l_back and all(v == mk('sub', L, ONE) for v in l_back), R, fid + '|look-ahead index',
+              'the look-ahead starts at the current braking point and visits every point after it, one at a time',
+              'idx starts at %s (current point: %s) and becomes %s' % (show(l_ent, an.names)[:100], show(IDX, an.names)[:100], [show(v, an.names)[:60] for v in l_back]), w)
+    mins = [c for c in an.calls if c.in_loop and re.sub(r'::<.*?>', '', c.callee).endswith('::min')]
+    try:
+        off, adj = an.arg('offset'), an.arg('adj_ramp_up_time')
+        far = mk('add', off, mk('mul', speed, adj))
+    except KeyError:
+        far = None
+    okc = False
+    if len(mins) == 1 and far is not None:
+        tail = [(c_, o) for c_, o in mins[0].pc if c_[0] != 'pathset']
+        okc = len(tail) == 2 and tail[0] == (mk('ge', L, ONE), tail[0][1]) and tail[0][1] != '0' and tail[1][1] != '0' and \
+            tail[1][0] == mk('le', ('pre', P('points') + (('idx', mk('sub', L, ONE)), ('f', 'offset'))), far)
+    ctx.check(okc, R, fid + '|look-ahead reach', 'a point is taken into the minimum exactly while it exists and lies at or before offset + speed * ramp-up time',
+              'the minimum is taken under %s' % ([(show(c_, an.names)[:110], o) for c_, o in mins[0].pc if c_[0] != 'pathset'] if mins else None), w)
+    # the position search that sets idx_curr: walks one point at a time towards the destination while the next point has been reached
+    KEY = P('idx_curr')
+    Hs = [h for h in an.loop_entry if h != H and KEY in (an.havoc.get(h) or ())]
+    if len(Hs) != 1:
+        ctx.unproved(R, fid + '|position search', 'expected one loop that carries idx_curr, found %d' % len(Hs), w); return
+    H1 = Hs[0]
+    LV = ('loopvar', H1, KEY)
+    e1 = an.load(KEY, an.loop_entry[H1]); b1 = [an.load(KEY, s_) for s_ in an.loop_back.get(H1, [])]
+    first = mk('le', ('pre', P('points') + (('idx', ZERO), ('f', 'offset'))), off) if far is not None else None
+    okp = e1 == ('pre', KEY) and b1 and all(v == mk('sub', LV, ONE) for v in b1) and IDX == mk('gamma', first, ZERO, LV)
+    ctx.check(okp, R, fid + '|position search', 'idx_curr is 0 once the first point has been reached, otherwise it moves on from its previous value one point at a time',
+              'idx_curr: entry %s, step %s, result %s' % (show(e1, an.names)[:60], [show(v, an.names)[:60] for v in b1], show(IDX, an.names)[:120]), w)
+    want_exit = mk('le', ('pre', P('points') + (('idx', mk('sub', LV, ONE)), ('f', 'offset'))), off) if far is not None else None
+    ex = False
+    for g in an.guards:
+        for c_, o in (g.gate or []):
+            pass
+    for c in an.calls:
+        for c_, o in c.pc:
+            if c_[0] == 'pathset':
+                for alt in c_[2]:
+                    if any(cc == want_exit and oo == '0' for cc, oo in alt):
+                        ex = True
+    ctx.check(ex, R, fid + '|position search exit', 'the search stops at the first point whose successor has not been reached yet (points[idx_curr - 1].offset <= offset is false)',
+              'no path leaves the search on that test', w)
 
 
 # ------------------------------------------------------------------------------------------------ termination window
